@@ -14,6 +14,7 @@ import (
 	"fmt"
 	"math/rand/v2"
 	"os"
+	pathpkg "path"
 	"path/filepath"
 	"strings"
 	"sync"
@@ -47,14 +48,14 @@ type nameSpec struct {
 }
 
 type caseSpec struct {
-	Index    int             `json:"index"`
-	Backend  string          `json:"backend"`
-	DestForm string          `json:"dest_form"`
-	Limits   string          `json:"limits"`
-	Prepop   bool            `json:"prepopulated"`
-	Names    []nameSpec      `json:"names"`
-	Nested   int             `json:"nesting"`
-	Entries  []zipgen.Entry  `json:"-"`
+	Index    int            `json:"index"`
+	Backend  string         `json:"backend"`
+	DestForm string         `json:"dest_form"`
+	Limits   string         `json:"limits"`
+	Prepop   bool           `json:"prepopulated"`
+	Names    []nameSpec     `json:"names"`
+	Nested   int            `json:"nesting"`
+	Entries  []zipgen.Entry `json:"-"`
 }
 
 // escapes: interpreting '/' (the OS separator here), does the component walk ever go above depth 0?
@@ -181,7 +182,7 @@ func genCase(r *vrun.Run, idx int) caseSpec {
 	if idx%6 == 5 {
 		c.Backend = "mem"
 	}
-	forms := []string{"abs", "abs-trailing", "rel", "dot-rel", "updown-rel", "rel-trailing", "dot", "abs-new-deep", "rel-new-deep"}
+	forms := []string{"abs", "abs-trailing", "rel", "dot-rel", "updown-rel", "rel-trailing", "dot", "abs-new-deep", "rel-new-deep", "parent", "parent-trailing", "parent-parent", "parent-rel"}
 	c.DestForm = forms[rng.IntN(len(forms))]
 	if c.Backend == "mem" {
 		c.DestForm = []string{"abs", "abs-trailing", "abs-new-deep"}[rng.IntN(3)]
@@ -326,6 +327,25 @@ func runCase(r *vrun.Run, c caseSpec, scratch string) {
 		destArg, destAbs = filepath.Join(work, "new", "deep", "out"), filepath.Join(work, "new", "deep", "out")
 	case "rel-new-deep":
 		destArg, destAbs = "new/deep/out", filepath.Join(work, "new", "deep", "out")
+	case "parent", "parent-trailing":
+		// destination made of parent references only: the working directory is a child of the destination
+		destAbs = filepath.Join(work, "out")
+		work = filepath.Join(destAbs, "cwd1")
+		_ = base.MkdirAll(work, 0o755)
+		destArg = ".."
+		if c.DestForm == "parent-trailing" {
+			destArg = "../"
+		}
+	case "parent-parent":
+		destAbs = filepath.Join(work, "out")
+		work = filepath.Join(destAbs, "cwd1", "cwd2")
+		_ = base.MkdirAll(work, 0o755)
+		destArg = "../.."
+	case "parent-rel":
+		destAbs = filepath.Join(work, "out")
+		work = filepath.Join(work, "cwdp")
+		_ = base.MkdirAll(work, 0o755)
+		destArg = "../out"
 	}
 	if c.Prepop {
 		write(filepath.Join(destAbs, "existing.txt"), []byte("already here"))
@@ -455,6 +475,12 @@ func runCase(r *vrun.Run, c caseSpec, scratch string) {
 			continue
 		}
 		if n.Escapes && !strings.HasPrefix(n.Class, "nested:") && i < len(c.Entries) {
+			if kindConflict(c.Names[:i], c.Prepop) {
+				// the entries before the escaping one cannot all be extracted (a name used both for a file and
+				// for a directory): the call legitimately stops there with another error.
+				r.Obs("error_kind_not_judged_earlier_kind_conflict", 1)
+				break
+			}
 			r.Obs("escaping_entries_judged_for_error_kind", 1)
 			if callErr == nil {
 				r.Violation(vrun.Sig{"oracle": "error-kind", "effect": "escaping-entry-accepted", "name_class": n.Class},
@@ -473,6 +499,39 @@ func runCase(r *vrun.Run, c caseSpec, scratch string) {
 	} else {
 		r.Obs("extractions_failed_otherwise", 1)
 	}
+}
+
+// kindConflict reports whether extracting the given (benign) entries in order must fail on its own because a
+// path is needed both as a file and as a directory.
+func kindConflict(names []nameSpec, prepop bool) bool {
+	kinds := map[string]string{}
+	if prepop {
+		kinds["existing.txt"] = "file"
+		kinds["d"] = "dir"
+		kinds["d/old.txt"] = "file"
+	}
+	for _, n := range names {
+		p := pathpkg.Clean(strings.ReplaceAll(n.Name, "\\", "/"))
+		p = strings.TrimPrefix(p, "/")
+		if p == "." || p == "" {
+			continue
+		}
+		for a := pathpkg.Dir(p); a != "." && a != "/" && a != ""; a = pathpkg.Dir(a) {
+			if kinds[a] == "file" {
+				return true
+			}
+			kinds[a] = "dir"
+		}
+		k := "file"
+		if n.Dir || strings.HasSuffix(n.Name, "/") {
+			k = "dir"
+		}
+		if old, ok := kinds[p]; ok && old != k {
+			return true
+		}
+		kinds[p] = k
+	}
+	return false
 }
 
 func quoteNames(ns []nameSpec) []string {
